@@ -142,10 +142,31 @@ def table_obligation(tb):
             if len(t) == 3:
                 shapes[t[0] + "." + t[1]] = t[2]
         note = "lake build %s fails on the table regenerated from the current headers; methods without the shape `%s`:\n" % (tb["target"], tb["pred"])
-        note += "\n".join("  %s : %s" % (n, shapes.get(n, "?")) for n in names) or (b.stdout + b.stderr)[-1500:]
+        note += "\n".join("  %s : %s" % (n, shapes.get(n, "?")) for n in names)
+        w = [l for l in sm.stdout.splitlines() if l.startswith("wrapper ")]
+        if not (w and "'lock': [1]" in w[0] and "'unlock': [2]" in w[0] and "'underlying': 'std::mutex'" in w[0]):
+            note += "\n  lock.hpp: cappuccino::mutex<thread_safe::yes> is not a plain forwarder to a std::mutex (theorem wrapper_faithful): %s" % (w[0] if w else "?")
+        if not names:
+            note += "\n" + (b.stdout + b.stderr)[-1500:]
         return False, empty, note
     a = lean_audit(tb["theorems"], imports=("Verif", tb["target"]))
     return a["ok"], a, "" if a["ok"] else "audit of %s failed: missing %s, axioms %s" % (tb["target"], a["missing"], a["extra_axioms"])
+
+
+EXERCISED = {"insert", "insert_range", "find", "find_range", "find_range_fill", "find_with_use_count", "erase", "erase_range",
+             "clear", "clean_expired_values", "dynamically_age", "update_ttl", "size", "empty", "capacity"}
+
+
+def unexercised_methods():
+    """Public methods of the ten classes (as the translator sees them in the current headers) that no harness calls:
+    the correspondence says nothing about them.  Reported in the evidence of the checks that run the translator."""
+    sm = sh(["python3", os.path.join(ROOT, "tools", "lockshape.py"), "--repo", REPO, "--summary"])
+    out = []
+    for l in sm.stdout.splitlines():
+        t = l.split(None, 2)
+        if len(t) >= 2 and t[0] != "wrapper" and t[1].split("#")[0] not in EXERCISED:
+            out.append(t[0] + "." + t[1])
+    return out
 
 
 def lean_audit_conc(theorems):
@@ -282,7 +303,7 @@ def parse_driver(lines, results, offset):
             r.bad = rest
 
 
-SKEW = {"fired": 0}
+SKEW = {"fired": 0, "noskew": 0}
 
 
 def run_chunk(exe, scripts, extra_args=()):
@@ -292,18 +313,30 @@ def run_chunk(exe, scripts, extra_args=()):
     while start < len(scripts):
         text = "\n".join("\n".join(s) for s in scripts[start:]) + "\n"
         env = dict(os.environ, ASAN_OPTIONS="detect_leaks=1:abort_on_error=0:exitcode=66", UBSAN_OPTIONS="print_stacktrace=1")
-        h = subprocess.run([exe] + list(extra_args), input=text, stdout=subprocess.PIPE, stderr=subprocess.PIPE,
-                           text=True, env=env)
+        limit = 300 + len(scripts[start:]) // 20
+        hung = False
+        try:
+            h = subprocess.run([exe] + list(extra_args), input=text, stdout=subprocess.PIPE, stderr=subprocess.PIPE,
+                               text=True, env=env, timeout=limit)
+        except subprocess.TimeoutExpired as e:
+            # the implementation does not return from a call (infinite loop in a corrupted structure, deadlock)
+            def txt(b_):
+                return b_.decode("utf-8", "replace") if isinstance(b_, bytes) else (b_ or "")
+            so = txt(e.stdout)
+            h = subprocess.CompletedProcess(e.cmd, -9, so[:so.rfind("end\n") + 4] if "end\n" in so else "",
+                                            txt(e.stderr) + "\nharness: no return from a call within %d s (hang)\n" % limit)
+            hung = True
         d = subprocess.run([DRIVER], input=h.stdout, stdout=subprocess.PIPE, stderr=subprocess.PIPE, text=True)
         parse_driver(d.stdout.splitlines(), results, start)
         SKEW["fired"] += sum(int(x) for x in re.findall(r"@skew (\d+)", h.stderr))
-        if h.returncode == 0:
+        SKEW["noskew"] += len(re.findall(r"@noskew", h.stderr))
+        if h.returncode == 0 and not hung:
             break
         # the harness died: the script being executed is the last `@script n` marker
         marks = re.findall(r"@script (\d+)", h.stderr)
         n = int(marks[-1]) if marks else 0
         bad = start + n
-        err = re.sub(r"@(script|skew) \d+\n", "", h.stderr)
+        err = re.sub(r"@(script|skew) \d+\n|@noskew\n", "", h.stderr)
         results[bad].crash = "exit=%d\n%s" % (h.returncode, err[-3000:])
         start = bad + 1
     return results
@@ -518,7 +551,7 @@ def check_known(prop, exe, out):
 def gen_scripts(prop, tier, seed):
     spec = P.PROPS[prop]
     rng = random.Random(seed * 1000003 + int(prop[1:]))
-    per = spec["quick"] if tier == "quick" else spec["thorough"]
+    per = spec["quick"] if tier == "quick" else spec["thorough"] * THOROUGH_SCALE
     scripts = []
     # corpus first: minimised past failures and the replays of the repaired defects
     cdir = os.path.join(ROOT, "corpus")
@@ -536,9 +569,14 @@ def gen_scripts(prop, tier, seed):
                 scripts.append(gen.gen(rng, kind, mode))
     if tier == "thorough" and "single" in spec["modes"]:
         # bounded-exhaustive small scope: every script of 3 steps over the small alphabet, 2 slots, 3 keys
+        # and every script of 4 steps over 2 keys
         for kind in spec["kinds"]:
             scripts.extend(gen.exhaustive(kind, 3))
+            scripts.extend(gen.exhaustive(kind, 4, nkeys=2))
     return scripts, ncorpus
+
+
+THOROUGH_SCALE = int(os.environ.get("VERIF_THOROUGH_SCALE", "4"))
 
 
 def summarize(results):
@@ -669,8 +707,10 @@ def finish(prop, tier, seed, t0, spec, audit, scripts, results, ncorpus, violati
             "rule": "scripts generated from VERIF_SEED by tools/gen.py (modes %s, kinds %s), run on the real headers; distinct = distinct op sequences; non-trivial = at least one lookup hit and at least one eviction / expiry / reaped entry / rejected insert" % (spec["modes"], spec["kinds"]),
             "traces_validated_against_impl": len([r for r in results if not r.l1 and not r.acc and not r.crash and not r.bad]),
             "corpus_scripts": ncorpus,
+            **({"public_methods_no_harness_exercises": unexercised_methods()} if spec.get("table") else {}),
             "scripts_with_lock_entry_skew": len([x for x in scripts if " skew=1" in x[0]]),
             "lock_acquisitions_that_moved_the_clock": SKEW["fired"],
+            "skew_scripts_run_unskewed_because_the_lock_is_not_a_pthread_mutex": SKEW["noskew"],
             "scripts_per_kind": perkind,
             "operation_histogram": op_histogram(scripts),
             "measured": tot,
